@@ -243,10 +243,12 @@ void classify_crash(const std::string& err, int wstatus, std::string& key, std::
     size_t e = err.find_first_of(" \n", c);
     std::string kind = err.substr(c, e - c);
     if (std::string(san) == "tsan") { e = err.find_first_of("(\n", c); kind = err.substr(c, e - c); while (!kind.empty() && kind.back() == ' ') kind.pop_back(); std::replace(kind.begin(), kind.end(), ' ', '-'); }
-    // first frame that is in the repository's sources
+    // the first three distinct frames that are in the repository's sources (innermost first)
     std::string func;
     size_t pos = a;
-    while ((pos = err.find("\n    #", pos)) != std::string::npos) {
+    int nf = 0; std::string last;
+    size_t stop_at = err.find("\n\n", a);   // only the faulting stack, not the alloc/free stacks
+    while (nf < 3 && (pos = err.find("\n    #", pos)) != std::string::npos && (stop_at == std::string::npos || pos < stop_at)) {
       size_t eol = err.find('\n', pos + 1);
       std::string line = err.substr(pos + 1, eol - pos - 1);
       pos = eol == std::string::npos ? err.size() : eol;
@@ -254,8 +256,13 @@ void classify_crash(const std::string& err, int wstatus, std::string& key, std::
       size_t in = line.find(" in ");
       if (in == std::string::npos) continue;
       size_t fe = line.find(" /", in + 4);
-      func = strip_templates(line.substr(in + 4, fe == std::string::npos ? std::string::npos : fe - in - 4));
-      break;
+      std::string fn = strip_templates(line.substr(in + 4, fe == std::string::npos ? std::string::npos : fe - in - 4));
+      size_t ns = fn.find("unifex::");
+      if (ns != std::string::npos) fn = fn.substr(ns + 8);
+      if (fn.empty() || fn == last || fn.find("unifex") != std::string::npos && fn.size() > 80) continue;
+      last = fn;
+      func += (nf ? "<" : "") + fn;
+      ++nf;
     }
     key = std::string(san) + ":" + kind + (func.empty() ? "" : ":" + func);
     size_t eol = err.find('\n', a);
